@@ -268,23 +268,43 @@ func (c *childState) genOp(r *rng, spec *CaseSpec, tabs []table) OpSpec {
 	if i < 0 {
 		i = 0
 	}
+	nfree := 0
+	for q := 0; q < spec.NPub; q++ {
+		if t.idxs[q] == 0 {
+			nfree++
+		}
+	}
+	if nfree == 0 && ln > 0 && r.chance(75) {
+		// every pubkey is on this history already: branch off somewhere below instead of piling up refusals
+		i = r.intn(ln)
+	}
 	var p int
+	var free, later, earlier []int
+	for q := 0; q < spec.NPub; q++ {
+		switch w := t.idxs[q]; {
+		case w == 0:
+			free = append(free, q)
+		case int(w-1) > i:
+			later = append(later, q)
+		case int(w-1) < i:
+			earlier = append(earlier, q)
+		}
+	}
+	pick := func(xs []int) int {
+		if len(xs) == 0 {
+			return r.intn(spec.NPub)
+		}
+		return xs[r.intn(len(xs))]
+	}
 	switch x := r.intn(100); {
-	case x < 22 && i < ln && t.pubs[i] > 0:
+	case x < 20 && i < ln && t.pubs[i] > 0:
 		p = t.pubs[i] - 1 // the pair already there
-	case x < 55:
-		// a pubkey not registered on this history, if any
-		var free []int
-		for q := 0; q < spec.NPub; q++ {
-			if t.idxs[q] == 0 {
-				free = append(free, q)
-			}
-		}
-		if len(free) > 0 {
-			p = free[r.intn(len(free))]
-		} else {
-			p = r.intn(spec.NPub)
-		}
+	case x < 62:
+		p = pick(free) // a pubkey not registered on this history
+	case x < 76:
+		p = pick(later) // registered at a later index: the add must branch off before it
+	case x < 86:
+		p = pick(earlier) // registered at an earlier index: would be a second registration
 	default:
 		p = r.intn(spec.NPub)
 	}
@@ -685,7 +705,7 @@ func runC16(e *Env) error {
 		add(CaseSpec{Kind: "witness_sibling_leak", NPub: 3, Fixed: []OpSpec{{0, 0, 0, 0}, {0, 0, 1, 1}, {0, 1, 1, 2}, {0, 0, 2, 2}, {1, 1, 2, 1}}})
 		add(CaseSpec{Kind: "witness_add_diverges", Init: []int{0, 1, 2}, NPub: 3, Fixed: []OpSpec{{0, 1, 1, 2}}})
 		add(CaseSpec{Kind: "witness_add_diverges", NPub: 3, Fixed: []OpSpec{{0, 0, 0, 0}, {0, 0, 1, 1}, {0, 0, 2, 2}, {0, 1, 1, 2}, {1, 2, 0, 1}, {2, 2, 1, 0}}})
-		n := e.N(320, 4000)
+		n := e.N(320, 12000)
 		for c := 0; c < n; c++ {
 			s := CaseSpec{Kind: "random_empty_init", Seed: r.U64(), NPub: 4 + r.Intn(maxPubkeys-3), NOps: 4 + r.Intn(37), MaxVars: 2 + r.Intn(5)}
 			if r.Chance(30) {
